@@ -596,6 +596,10 @@ class FileSystem(SimComponent):
         self.deleted_folders.pop(folder.uuid, None)
         folder.restore()
         self.folders[folder.uuid] = folder
+        # requests that name this folder must reach the restored object, not a deleted namesake registered later
+        self._folder_request_manager.add_request(
+            name=folder.name, request_type=RequestType(func=folder._request_manager)
+        )
         return True
 
     def restore_file(self, folder_name: str, file_name: str) -> bool:
